@@ -179,9 +179,14 @@ func abInput(n int) string {
 	return sb.String()
 }
 
-func genParsers() []genParser {
+func genParsers(quick bool) []genParser {
 	li := []genInput{{"list1300", listInput(1300)}, {"list1111", listInput(1111)}}
-	return []genParser{
+	if !quick {
+		for _, n := range []int{1024, 1201, 1450, 1600} {
+			li = append(li, genInput{fmt.Sprintf("list%d", n), listInput(n)})
+		}
+	}
+	ps := []genParser{
 		{Name: "gl00", TM: header("gl00") + listLexer + listParser, Inputs: li},
 		{Name: "gl01", TM: header("gl01", "cancellableFetch = true") + listLexer + listParser, Inputs: li},
 		{Name: "gl10", TM: header("gl10", "tokenStream = true") + listLexer + listParser, Inputs: li},
@@ -204,6 +209,17 @@ func genParsers() []genParser {
 			{"laA1100", "a" + strings.Repeat("b", 1098) + "c"},
 		}},
 	}
+	if !quick {
+		for i := range ps {
+			if ps[i].Lookaheads > 0 {
+				ps[i].Inputs = append(ps[i].Inputs,
+					genInput{"laA1537", "a" + strings.Repeat("b", 1535) + "c"},
+					genInput{"laB1300", "a" + strings.Repeat("b", 1298) + "d"},
+					genInput{"laA700", "a" + strings.Repeat("b", 698) + "c"})
+			}
+		}
+	}
+	return ps
 }
 
 const drvSrc = `package PKGNAME
@@ -517,7 +533,7 @@ func buildRef(res genharness.Result) (*reference, error) {
 }
 
 func layerB(c *core.Ctx, st *stats) {
-	ps := genParsers()
+	ps := genParsers(c.Quick())
 	// pass 1: reference runs
 	var specs []genharness.Spec
 	for _, p := range ps {
